@@ -19,6 +19,9 @@ func propC16(r *Report, tier string) {
 	ruleRegisterAllInDependencyOrder(r, "K5-register-all-dependency-order")
 	ruleCustomComponentRecordedAfterDefine(r, "K5-custom-component-recorded-after-define")
 	ruleOmitemptyNilVsEmpty(r, "K9-omitempty-nil-vs-empty", "mapping", "DocumentMapping", "IndexMappingImpl", "FieldMapping")
+	ruleMemoKeyCoversInputs(r, "K6-memo-key-covers-inputs", 1, map[string]string{
+		"registry.(*ConcurrentCache).ItemNamed": "each ConcurrentCache is the per-kind table of one registry.Cache: all ten callers (registry/*.go <Kind>Cache.<Kind>Named) pass the owning Cache and the fixed builder of that kind, so (cache, build) are constant per map",
+	}, "mapping", "registry", "analysis")
 	r.Floor(rule, 40)
 	r.Floor("K9b-tags-complete", 7)
 	r.Floor("K11-mapping-store-load", 4)
